@@ -102,7 +102,7 @@ CHECKS = {
                      "exactly as before the call and no cleanup call made, is then repeated, and every later output must equal the fault-free run's; "
                      "non-trivial = at least one injected fault fired"),
             "assumptions": ["workload of about a dozen backend calls per configuration: every (k,m) with k+m <= 10 | 16 for rs_vand, isa_l_rs_vand, isa_l_rs_cauchy; flat_xor_hd (3,3,3) (5,5,3) (6,6,4); null (2,1); rs_vand (10,4) (4,10); isa_l_rs_vand (3,12) (+3 flat_xor_hd shapes in thorough); triples of faults for k+m <= 6 | 16",
-                            "a backend 'failure' is a negative / NULL return of the operation-table entry (injected by the tap), plus the init failures the back ends report themselves for 11 refused configurations (unsupported flat-XOR shapes, null / isa-l word sizes); failures inside the plug-in's primitives (matrix inversion) are C19's subject",
+                            "a backend 'failure' is a negative / NULL return of the operation-table entry (injected by the tap), plus the failures the back ends report themselves: init for 11 refused configurations (unsupported flat-XOR shapes, null / isa-l word sizes) and flat-XOR decode / reconstruct for every erasure set of hd and hd+1 fragments of 5 | 7 shapes; failures inside the plug-in's primitives (matrix inversion) are C19's subject",
                             "allocation failure is not injected"]},
     "C18": {"runs": [
                      {"name": "tsan", "plan": "tsan", "srcs": T_SRCS, "san": "tsan", "hooks": True, "nosan": ("vsched.c",), "opts": {"quick": {"bound": 1, "drivers": 7, "bound3": 1}, "thorough": {"bound": 2, "drivers": 10, "bound3": 1}}},
